@@ -255,6 +255,9 @@ def r2(ctx):
     Nw = Norm(strict=False)
     want_zero = Nw.b(ast.parse(f"np.all({revealed} == 0)", mode="eval").body)
     want_nan = Nw.b(ast.parse(f"np.any(np.isnan({revealed}))", mode="eval").body)
+    # on a numeric array "no element is truthy" is "every element equals 0" (NaN is truthy and != 0; -0.0 is falsy and == 0)
+    want_zero_alt = [Nw.b(ast.parse(x, mode="eval").body) for x in (f"not np.any({revealed})", f"not {revealed}.any()", f"not np.any({revealed} != 0)",
+                                                                     f"np.count_nonzero({revealed}) == 0")]
     found = {"zero": False, "nan": False}
     for t, arm in g.raising_guards():
         if arm != "then":
@@ -262,7 +265,7 @@ def r2(ctx):
         if not all(t in dom.get(r, ()) for r in rets):
             continue
         b = N.b(inline(t.stmt.test, {k_: v_ for k_, v_ in env.items() if k_ not in (S, ids)}))
-        if b == want_zero:
+        if b == want_zero or b in want_zero_alt:
             found["zero"] = True
         if b == want_nan:
             found["nan"] = True
